@@ -688,6 +688,25 @@ func c06Panics(c *c06ctx) {
 			name := core.RelPkg(top) + "." + core.FuncName(top)
 			key := fkey(rule, top, "explicit-panic")
 			why, ok := allowedPanics[name]
+			// the panicking tail of reviewed functions factored into a private helper: reviewed with them,
+			// provided nothing else calls it
+			if !ok && core.PrivateHelper(top) {
+				sites := core.ClosureCallSites(top)
+				all := len(sites) > 0
+				var from []string
+				for _, cs := range sites {
+					ct := core.Outermost(cs.Parent())
+					cn := core.RelPkg(ct) + "." + core.FuncName(ct)
+					if r, isOK := allowedPanics[cn]; !isOK || r == "" {
+						all = false
+					} else {
+						from = append(from, cn+": "+r)
+					}
+				}
+				if all {
+					why, ok = "private helper called only from reviewed functions ("+strings.Join(from, "; ")+")", true
+				}
+			}
 			onPath := c.scope[fn]
 			table = append(table, fmt.Sprintf("%s (on network path: %v): %s", name, onPath, why))
 			if ok && why != "" {
